@@ -302,6 +302,27 @@ func (e *FnExec) doReturn(st *State, r *ssa.Return) {
 	if e.con == nil {
 		return
 	}
+	// ghost assignments of the contract happen "at the return"
+	for _, gs := range e.con.GhostSets {
+		parts := strings.SplitN(gs.Text, ":=", 2)
+		if len(parts) != 2 {
+			e.errf("%s:%d: ghostset needs ':='", gs.File, gs.Line)
+			continue
+		}
+		genv := e.specEnv(st, token.NoPos)
+		items, err := genv.modItems(&Clause{Text: strings.TrimSpace(parts[0]), File: gs.File, Line: gs.Line})
+		if err != nil || len(items) != 1 || items[0].loc == nil {
+			e.errf("%s:%d: ghostset target must be one gf()/gfi() location", gs.File, gs.Line)
+			continue
+		}
+		v, _, err := genv.termExpr(&Clause{Text: strings.TrimSpace(parts[1]), File: gs.File, Line: gs.Line})
+		if err != nil {
+			e.errf("%v", err)
+			continue
+		}
+		it := items[0]
+		e.setMem(st, it.class, it.sort, Store(e.getMem(st, it.class, it.sort), it.loc, v))
+	}
 	env := e.specEnv(st, token.NoPos)
 	res := e.fn.Signature.Results()
 	for i, rv := range r.Results {
@@ -504,6 +525,7 @@ func (e *FnExec) call(st *State, instr ssa.Instruction, c *ssa.CallCommon, res s
 		}
 	}
 	var con *Contract
+	var closureOf *ssa.MakeClosure
 	if key != "" {
 		for _, a := range c.Args {
 			if mi, ok := a.(*ssa.MakeInterface); ok {
@@ -524,6 +546,15 @@ func (e *FnExec) call(st *State, instr ssa.Instruction, c *ssa.CallCommon, res s
 			if mc, ok := c.Value.(*ssa.MakeClosure); ok {
 				key = fnKey(mc.Fn.(*ssa.Function))
 				con = e.P.cs.Funcs[key]
+				closureOf = mc
+			} else if v := e.val(st, c.Value); v.T != nil {
+				// a local variable holding a closure created in this function
+				if mc, ok := e.closures[v.T]; ok {
+					key = fnKey(mc.Fn.(*ssa.Function))
+					con = e.P.cs.Funcs[key]
+					sig = mc.Fn.(*ssa.Function).Signature
+					closureOf = mc
+				}
 			}
 		}
 	}
@@ -551,7 +582,9 @@ func (e *FnExec) call(st *State, instr ssa.Instruction, c *ssa.CallCommon, res s
 	}
 	con.used++
 	e.noteCall(st, key, args, sig, c)
+	e.curClosure = closureOf
 	e.applyContract(st, key, con, sig, c, args, res, instr.Pos(), True)
+	e.curClosure = nil
 }
 
 // noteCall maintains the ghost state behind called(name) / callarg(name, i) / guardcall for
@@ -675,7 +708,11 @@ func (e *FnExec) applyContract(st *State, key string, con *Contract, sig *types.
 		i++
 	}
 	// free variables of closures
-	if mc, ok := c.Value.(*ssa.MakeClosure); ok {
+	mc, ok := c.Value.(*ssa.MakeClosure)
+	if !ok && e.curClosure != nil {
+		mc, ok = e.curClosure, true
+	}
+	if ok {
 		fn := mc.Fn.(*ssa.Function)
 		for k, fv := range fn.FreeVars {
 			bv := e.val(st, mc.Bindings[k])
